@@ -86,9 +86,17 @@ func (d *Device) next(n int) []byte {
 	return out
 }
 
+// MaxCalls bounds the reads of one device: a caller that keeps reading from a source
+// that has failed, or never accepts a candidate, does not terminate. The bound turns
+// that into a panic the executor reports, instead of a hung worker.
+const MaxCalls = 20000
+
 func (d *Device) Read(p []byte) (int, error) {
 	call := d.Calls
 	d.Calls++
+	if d.Calls > MaxCalls {
+		panic("randomness device: more than 20000 reads by one call: the call does not terminate")
+	}
 	if d.failed != nil {
 		d.Fired["sticky-err"]++
 		d.log("read#%d len=%d -> 0,%v (sticky)", call, len(p), d.failed)
